@@ -187,4 +187,129 @@ def initFastEntries (S : Schema) (nd : Nat → Bool) (ed : MsgD) : Vals → Bool
   | .cons _ tl => initFastEntries S nd ed tl
 end
 
+/-! ### (c) the `initialized` flag computed while decoding
+
+The flag depends on the input bytes and the coder tables only, never on the message being filled, so
+it is modelled as a function of the bytes that walks the records exactly as `Pb.decMsg` /
+`Pb.decField` / `Pb.decEntry` do (same order of tests); `decFlag` pairs it with the decoder.
+Where the decoder fails the flag is irrelevant (Go returns the error); the model answers `true` there
+and when out of fuel, the worst case for soundness. -/
+
+/-- how `consumeMapOfMessage` combines the flags of the occurrences of the value field in one entry -/
+inductive MapRule where
+  | orOcc    -- the code as it is: "initialized so long as we see an initialized value"
+  | andOcc   -- fixes/map-message-init-and.diff: a value was seen and every occurrence was initialized
+  deriving DecidableEq, Repr
+
+/-- `f.funcs.isInit != nil`: the field's `o.initialized` is honoured by `unmarshalPointerEager`.
+Message and group fields get `isInit` only `if needsInitCheck(mi.Desc)`; a map field gets it whenever
+its value is a message (`valFuncs.isInit` of `coderMessageValue`); a message extension always
+(`unmarshalExtension`: `if !o.initialized { initialized = false }`); oneof members report `true`
+themselves when their coder has no `isInit`, which amounts to the same. -/
+def considered (S : Schema) (nd : Nat → Bool) (f : Field) : Bool :=
+  if f.card = .map then
+    match (S.msg f.sub).find 2 with
+    | some vf => vf.kind.isMessage
+    | none => false
+  else if f.ext then f.kind.isMessage
+  else f.kind.isMessage && nd f.sub
+
+/-- `mi.numRequiredFields > 0 && bits.OnesCount64(requiredMask) != int(mi.numRequiredFields)` is false:
+every required field has its own bit as long as there are at most 64 of them (validate.go: beyond that
+`requiredBit` is 0 and the count can never match); `seen` = required fields whose bit is set -/
+def reqDone (d : MsgD) (seen : List Nat) : Bool :=
+  let req := d.fields.filter fun f => decide (f.card = .required)
+  req.isEmpty || (decide (req.length ≤ 64) && req.all fun f => seen.contains f.num)
+
+mutual
+/-- the record loop of `unmarshalPointerEager`: `init` = `initialized`, `seen` = `requiredMask` -/
+def flagLoop (S : Schema) (nd : Nat → Bool) (rule : MapRule) : Nat → Nat → Bool → List Nat → List Byte → Bool
+  | 0, _, _, _, _ => true
+  | fuel + 1, mi, init, seen, b =>
+    match b with
+    | [] => init && reqDone (S.msg mi) seen
+    | _ =>
+      match decTag b with
+      | .error _ => true
+      | .ok (num, wt, tagLen) =>
+        let val := b.drop tagLen
+        match Spec.consumeFieldValue num wt val with
+        | .error _ => true
+        | .ok n =>
+          match (S.msg mi).find num with
+          | none => flagLoop S nd rule fuel mi init seen (val.drop n)
+          | some f =>
+            match flagField S nd rule fuel f wt val with
+            | none => flagLoop S nd rule fuel mi init seen (val.drop n)   -- errUnknown
+            | some c =>
+              -- `requiredMask |= f.validation.requiredBit; if f.funcs.isInit != nil && !o.initialized { initialized = false }`
+              flagLoop S nd rule fuel mi (init && (!considered S nd f || c))
+                (if f.card = .required then f.num :: seen else seen) (val.drop n)
+/-- `f.funcs.unmarshal`: `none` = errUnknown, `some c` = success with `o.initialized = c` -/
+def flagField (S : Schema) (nd : Nat → Bool) (rule : MapRule) : Nat → Field → Nat → List Byte → Option Bool
+  | 0, _, _, _ => some true
+  | fuel + 1, f, wt, val =>
+    match f.card with
+    | .repeated =>
+      if f.kind.isMessage then
+        match decSubBytes f wt val with
+        | none => none
+        | some (.error _) => some true
+        | some (.ok p) => some (flagLoop S nd rule fuel f.sub true [] p)   -- consumeMessageSliceInfo
+      else if f.kind.isNumeric && wt = 2 then some true
+      else
+        match decScalar f wt val with
+        | none => none
+        | some _ => some true
+    | .map =>
+      if wt ≠ 2 then none
+      else match decBytes val with
+        | .error _ => some true
+        | .ok (p, _) =>
+          match (S.msg f.sub).find 1, (S.msg f.sub).find 2 with
+          | some kf, some vf => some (flagEntry S nd rule fuel kf vf p false false true)
+          | _, _ => some true
+    | _ =>
+      if f.kind.isMessage then
+        match decSubBytes f wt val with
+        | none => none
+        | some (.error _) => some true
+        | some (.ok p) => some (flagLoop S nd rule fuel f.sub true [] p)   -- consumeMessageInfo: `out.initialized = o.initialized`
+      else
+        match decScalar f wt val with
+        | none => none
+        | some _ => some true
+/-- the record loop of `consumeMapOfMessage` (`consumeMap` for scalar values, where the result is not
+honoured): `anyInit` = some occurrence of the value was initialized, `seenVal` = the value field
+occurred, `allInit` = every occurrence was initialized -/
+def flagEntry (S : Schema) (nd : Nat → Bool) (rule : MapRule) : Nat → Field → Field → List Byte → Bool → Bool → Bool → Bool
+  | 0, _, _, _, _, _, _ => true
+  | fuel + 1, kf, vf, b, anyInit, seenVal, allInit =>
+    match b with
+    | [] =>
+      (match rule with
+       | .orOcc => anyInit
+       | .andOcc => seenVal && allInit)
+    | _ =>
+      match decTag b with
+      | .error _ => true
+      | .ok (num, wt, tagLen) =>
+        let val := b.drop tagLen
+        match Spec.consumeFieldValue num wt val with
+        | .error _ => true
+        | .ok n =>
+          if num = 2 && vf.kind.isMessage then
+            match decSubBytes vf wt val with
+            | some (.ok p) =>
+              let o := flagLoop S nd rule fuel vf.sub true [] p
+              flagEntry S nd rule fuel kf vf (val.drop n) (anyInit || o) true (allInit && o)
+            | _ => flagEntry S nd rule fuel kf vf (val.drop n) anyInit seenVal allInit
+          else flagEntry S nd rule fuel kf vf (val.drop n) anyInit seenVal allInit
+end
+
+/-- the fast path's `Unmarshal` of `b` into a new message: the decoded message and the
+`UnmarshalInitialized` flag (`proto.Unmarshal` skips `checkInitialized` when it is set) -/
+def decFlag (S : Schema) (nd : Nat → Bool) (rule : MapRule) (mi : Nat) (b : List Byte) : Except DErr (Msg × Bool) :=
+  (unmarshal S mi b).map fun m => (m, flagLoop S nd rule (fuelFor b) mi true [] b)
+
 end FastInit
